@@ -21,10 +21,14 @@ theorem Env.set_eq_self (env : Env) (m : MonId) (x : Int) (h : env m = x) : env.
   · rfl
 
 /-- every exit of the relay loop other than suspension leaves the monitor idle -/
-theorem relayTop_idle {c : SBody} (m : MonId) (y : Val) (cs : CSt c.σ) (env : Env) :
+theorem relayTop_idle {c : SBody} (m : MonId) (y : YV) (cs : CSt c.σ) (env : Env) :
     (∀ z, (relayTop (c := c) m y cs env).2 ≠ .pending z) → (relayTop (c := c) m y cs env).1.env m = 0 := by
   unfold relayTop
-  split <;> simp
+  split
+  · split
+    · split <;> simp
+    · simp
+  · simp
 
 theorem relayAfter_idle {c : SBody} (m : MonId) (r : CSt c.σ × SOut × Env) :
     (∀ z, (relayAfter m r).2 ≠ .pending z) → (relayAfter m r).1.env m = 0 := by
@@ -34,7 +38,7 @@ theorem relayAfter_idle {c : SBody} (m : MonId) (r : CSt c.σ × SOut × Env) :
   | ret v => intro _; simp [relayAfter]
   | raise e => intro _; simp [relayAfter]
 
-theorem finish_pending (op : Op) (o : CallOut) (y : Val) (h : op.finish o = .pending y) : o = .pending y := by
+theorem finish_pending (op : Op) (o : CallOut) (y : YV) (h : op.finish o = .pending y) : o = .pending y := by
   cases op <;> cases o <;> simp [Op.finish] at h ⊢ <;> try exact h
   all_goals (rename_i e; cases e <;> simp [Op.finish] at h)
 
@@ -59,7 +63,7 @@ theorem asendResume_idle {c : SBody} (m : MonId) (r : Resume) (sys : Sys c) :
   · exact relayAfter_idle m _
   · exact relayAfter_idle m _
 
-theorem asendResume_genExit_not_pending {c : SBody} (m : MonId) (sys : Sys c) (z : Val) :
+theorem asendResume_genExit_not_pending {c : SBody} (m : MonId) (sys : Sys c) (z : YV) :
     (asendResume m (.throw .genExit) sys).2 ≠ .pending z := by
   simp only [asendResume]
   split <;> simp
@@ -76,21 +80,21 @@ open Asynkit.Proto (Val Exc Resume)
 
 inductive IRes (σ : Type) where
   | oob (d : Val) (s : σ) (env : Env)
-  | real (y : Val) (s : σ) (env : Env)
+  | real (y : YV) (s : σ) (env : Env)
   | ret (v : Val) (s : σ) (env : Env)
   | raise (e : Exc) (s : σ) (env : Env)
 
 def resolveI {σ : Type} (m : MonId) : Step σ → Env → IRes σ
-  | .yield y s, env => .real y s env
+  | .yield y s, env => .real (.plain y) s env
   | .oob m' d s refused, env =>
     if m' = m then .oob d s env
-    else if env m' ≠ 1 then resolveI m (refused ()) env else .real d s (env.set m' (-1))
+    else if env m' = 0 then resolveI m (refused ()) env else .real (.req m' d) s (env.set m' (-1))
   | .ret v s, env => .ret v s env
   | .raise e s, env => .raise e s env
 
 inductive IOut where
   | oob (d : Val)      -- the body executed `await m.oob(d)` and is suspended in it
-  | real (y : Val)     -- the body really suspended on `y`
+  | real (y : YV)      -- the body really suspended on `y` (or called `oob` on another monitor)
   | ret (v : Val)
   | raise (e : Exc)
 deriving Repr, DecidableEq
@@ -115,7 +119,7 @@ def idealResume (b : MBody) (m : MonId) (st : CSt b.σ) (r : Resume) (env : Env)
 theorem resolve_ideal {σ : Type} (m : MonId) (st : Step σ) (env : Env) :
     resolve st (env.set m 1) =
       match resolveI m st env with
-      | .oob d s env' => .yield d s (env'.set m (-1))
+      | .oob d s env' => .yield (.req m d) s (env'.set m (-1))
       | .real y s env' => .yield y s (env'.set m 1)
       | .ret v s env' => .ret v s (env'.set m 1)
       | .raise e s env' => .raise e s (env'.set m 1) := by
@@ -128,9 +132,9 @@ theorem resolve_ideal {σ : Type} (m : MonId) (st : Step σ) (env : Env) :
     by_cases hm : m' = m
     · subst hm; simp
     · simp only [hm, ↓reduceIte, Env.set_other _ _ _ _ hm]
-      by_cases h1 : env m' = 1
-      · simp [h1, Env.set_comm _ _ _ _ _ (Ne.symm hm)]
+      by_cases h1 : env m' = 0
       · simp [h1, ih ()]
+      · simp [h1, Env.set_comm _ _ _ _ _ (Ne.symm hm)]
 
 /-- the ideal reading never looks at or changes the cell of `m` -/
 theorem resolveI_frame {σ : Type} (m : MonId) (st : Step σ) (env : Env) (x : Int) :
@@ -149,9 +153,9 @@ theorem resolveI_frame {σ : Type} (m : MonId) (st : Step σ) (env : Env) (x : I
     by_cases hm : m' = m
     · subst hm; simp
     · simp only [hm, ↓reduceIte, Env.set_other _ _ _ _ hm]
-      by_cases h1 : env m' = 1
-      · simp [h1, Env.set_comm _ _ _ _ _ (Ne.symm hm)]
+      by_cases h1 : env m' = 0
       · simp [h1, ih ()]
+      · simp [h1, Env.set_comm _ _ _ _ _ (Ne.symm hm)]
 
 end Asynkit.Monitor
 
@@ -173,14 +177,14 @@ def present (b : MBody) (m : MonId) (first : Bool) :
 theorem scoro_resume_ideal (b : MBody) (m : MonId) (st : CSt b.σ) (r : Resume) (env : Env) :
     SCoro.resume (ofM b) st r (env.set m 1) =
       match idealResume b m st r env with
-      | (st', .oob d, env') => (st', .yield d, env'.set m (-1))
+      | (st', .oob d, env') => (st', .yield (.req m d), env'.set m (-1))
       | (st', .real y, env') => (st', .yield y, env'.set m 1)
       | (st', .ret v, env') => (st', .ret v, env'.set m 1)
       | (st', .raise e, env') => (st', .raise e, env'.set m 1) := by
   have key : ∀ (stp : Step b.σ),
       SCoro.after (resolve stp (env.set m 1)) =
         match idealAfter (resolveI m stp env) with
-        | (st', .oob d, env') => (st', .yield d, env'.set m (-1))
+        | (st', .oob d, env') => (st', .yield (.req m d), env'.set m (-1))
         | (st', .real y, env') => (st', .yield y, env'.set m 1)
         | (st', .ret v, env') => (st', .ret v, env'.set m 1)
         | (st', .raise e, env') => (st', .raise e, env'.set m 1) := by
